@@ -12,6 +12,9 @@
                                                       `Evenio/Proofs/SlotMapGen.lean`)
   sparse_map.rs -> Evenio/Generated/SparseMapGen.lean (`SparseMap::{get, insert, remove}`, same translator;
                                                       `Evenio/Proofs/SparseMapGen.lean`)
+  access.rs   -> Evenio/Generated/AccessGen.lean      (`Access::{join, is_compatible}`, `ComponentAccess::{new_true, new_false, var,
+                                                      or, matches_archetype, clear_access, collect_conflicts}`, same translator;
+                                                      `Evenio/Proofs/AccessGen.lean`)
   handler.rs  -> Evenio/Generated/HandlerConfigGen.lean (the nine setters of `HandlerConfig`, same translator;
                                                       `Evenio/Proofs/HandlerConfigGen.lean`)
   entity.rs   -> Evenio/Generated/EntityGen.lean      (`ReservedEntities::{reserve, spawn_all, refresh}`, `Entities::add_with`,
@@ -658,6 +661,31 @@ def extract_handler_config():
                         "set_event_queue_access", "push_component_access", "insert_referenced_components"])
 
 
+def extract_access_funcs():
+    """access.rs: `Access::{join, is_compatible}`, `ComponentAccess::{new_true, new_false, var, or, matches_archetype,
+    clear_access, collect_conflicts}` — the code around the tables of AccessTables (iterator chains, `for … in &mut` as
+    `List.map`, `for … in &` as a fold into an `IndexSet` = duplicate-free list in first-occurrence order);
+    `ComponentAccess { cases }` is the list of cases.  `and` / `not` are outside the translator's subset.
+    `Evenio/Proofs/AccessGen.lean` proves the translated functions equal to `Model/Access.lean`."""
+    return run_rs2lean("src/access.rs",
+                       ["ComponentAccess", "Access::join", "Access::is_compatible", "new_true", "new_false", "var", "or",
+                        "matches_archetype", "clear_access", "collect_conflicts",
+                        "--namespace", "Evenio.Gen.Access",
+                        "--import", "Evenio.Generated.Rs2LeanPrelude", "--import", "Evenio.Model.Access",
+                        "--open", "Evenio.Rs2Lean", "--transparent", "ComponentAccess",
+                        "--type", "ComponentAccess=Evenio.CA", "--type", "Access=Evenio.Access",
+                        "--type", "CaseAccess=Evenio.CaseAccess", "--type", "ComponentIdx=Nat",
+                        "--variant", "CaseAccess::With=.wth", "--variant", "CaseAccess::Read=.rd",
+                        "--variant", "CaseAccess::ReadWrite=.rw", "--variant", "CaseAccess::Not=.nt",
+                        "--variant", "CaseAccess::Conflict=.cf",
+                        "--type", "IndexSet=List Nat", "--type", "RandomState=Unit",
+                        "--prim", "RandomState::new() -> RandomState=()",
+                        "--prim", "IndexSet::with_hasher(RandomState) -> IndexSet=fun _ => ([] : List Nat)",
+                        "--prim", "IndexSet::insert(&mut self, _) -> bool=indexSetInsert"],
+                       ["Access.join", "Access.is_compatible", "new_true", "new_false", "var", "or", "matches_archetype",
+                        "clear_access", "collect_conflicts"])
+
+
 def main():
     status_path = None
     if "--status" in sys.argv:
@@ -667,7 +695,8 @@ def main():
     for name, fn in [("AccessTables", extract_access), ("Gates", extract_gates), ("Sites", extract_sites),
                      ("HandlerListGen", extract_funcs), ("SlotMapGen", extract_slot_map),
                      ("SparseMapGen", extract_sparse_map), ("EntityGen", extract_entity),
-                     ("HandlerConfigGen", extract_handler_config)]:
+                     ("HandlerConfigGen", extract_handler_config),
+                     ("AccessGen", extract_access_funcs)]:
         target = os.path.join(OUT, name + ".lean")
         fallback = os.path.join(OUT, name + ".lean.fallback")
         old = open(target).read() if os.path.exists(target) else None
